@@ -143,10 +143,29 @@ def small_alphabet():
     return ops
 
 
+def unit_alphabet():
+    """many small fragments: one-byte chunks at 0..5 (deep histories build up to 6 separate or adjacent fragments)"""
+    return [('insert', p, b'A') for p in range(6)] + [('insert', 1, b'BC'), ('insert', 3, b'')]
+
+
+def wide_alphabet():
+    """longer chunks further out: lengths 1, 4, 5, 8 at 0, 4, 8, 12, 16 and two appends"""
+    ops = []
+    for p in (0, 4, 8, 12, 16):
+        for c in (b'A', b'BCDE', b'FGHIJ', b'KLMNOPQR'):
+            ops.append(('insert', p, c))
+    ops.append(('append', b'ST'))
+    ops.append(('append', b''))
+    return ops
+
+
+ALPHABETS = {'full': alphabet, 'small': small_alphabet, 'unit': unit_alphabet, 'wide': wide_alphabet}
+
+
 def _shard(shard, nshards, payload):
     from bisturi.fragments import Fragments
     depth = payload['depth']
-    ops = alphabet() if not payload.get('small') else small_alphabet()
+    ops = ALPHABETS[payload.get('alphabet') or ('small' if payload.get('small') else 'full')]()
     st = Stats()
     idx = 0
     # iterative deepening so that the first violation per signature is the shortest
@@ -179,6 +198,9 @@ def _shard(shard, nshards, payload):
 def run(tier):
     depth = 3 if tier == 'quick' else 4
     st = common.merge_all(common.run_sharded(_shard, {'depth': depth}))
+    # many fragments (depth 6 quick / 7 thorough over 8 operations) and long chunks at far positions (depth 3 / 4 over 22 operations)
+    st.merge(common.merge_all(common.run_sharded(_shard, {'depth': 6 if tier == 'quick' else 7, 'mindepth': 4, 'alphabet': 'unit'})))
+    st.merge(common.merge_all(common.run_sharded(_shard, {'depth': 3 if tier == 'quick' else 4, 'mindepth': 2, 'alphabet': 'wide'})))
     deep = None
     if tier == 'thorough':
         # one level deeper over a reduced alphabet (positions 0..4, chunks of length 0..2): 20 operations, depth 5
@@ -194,7 +216,9 @@ def run(tier):
         'evaluations': st.n.get('histories', 0),
         'distinct_nontrivial': st.count('states'),
         'rule': 'all operation histories of length 1..%d over %d operations (insert at 0..6 of 4 chunks incl. the empty one, append x4, '
-                'extend x4), each executed on a fresh real Fragments; distinct = canonical (sparse map, extent, cursor)' % (depth, nops),
+                'extend x4), plus all histories of length 4..%d over 8 operations (one-byte chunks at 0..5: many fragments) and of length 2..%d over 22 operations '
+                '(chunks of length 1/4/5/8 at 0/4/8/12/16), each executed on a fresh real Fragments; distinct = canonical (sparse map, extent, cursor)' % (
+                    depth, nops, 6 if tier == 'quick' else 7, 3 if tier == 'quick' else 4),
         'exhaustive': True,
         'bounds': {'depth': depth, 'operations': nops, 'positions': '0..6', 'chunks': [c.decode() for c in CHUNKS],
                    'extra': 'depth 5 over 20 operations (positions 0..4, chunks of length 0..2)' if deep is not None else None},
